@@ -1606,6 +1606,11 @@ def check_C14(tier: str, seed: int) -> int:
                 bases.append(("gen%d" % i, data, w.put(data)))
         for p in small_corpus(1300 if tier == "quick" else 16384):
             bases.append((p, open(p, "rb").read(), p))
+        # the same files with the header's file-size field zeroed / maximal (informational: the loader reads until the frames are done)
+        for name, data, _p in list(bases[:6]) + list(bases[-2:]):
+            for tag, val in (("size0", 0), ("sizemax", 2 ** 32 - 1)):
+                d2 = val.to_bytes(4, "little") + data[4:]
+                bases.append(("%s:%s" % (tag, name), d2, w.put(d2)))
         # also a few malformed inputs: the result (an error) must be schedule independent too
         for name, data in special_files(rng)[2:10]:
             bases.append(("special:" + name, data, w.put(data)))
